@@ -358,8 +358,8 @@ pub fn c13(tier: Tier) -> i32 {
     let mut ctx = Ctx::new("C13", tier, preds::all());
     let bases = base_lines();
     let (k1, k3) = match tier {
-        Tier::Quick => (2, 2),
-        Tier::Thorough => (3, 2),
+        Tier::Quick => (4, 3),
+        Tier::Thorough => (5, 3),
     };
     // one-line bases at k1 deviations; 3-line files at k3
     let mut jobs: Vec<(Vec<Vec<&str>>, usize, String)> = vec![];
